@@ -74,11 +74,29 @@ def lake_build(targets=("Cog", "drv")):
     return p.returncode == 0, (p.stdout + p.stderr)
 
 
-def forbidden_scan():
-    hits = []
-    for f in glob.glob(os.path.join(LEAN, "**", "*.lean"), recursive=True):
-        if "/.lake/" in f:
+def import_closure(modules):
+    """Lean source files transitively imported (within this project) by the given modules."""
+    seen, todo = set(), list(modules)
+    while todo:
+        m = todo.pop()
+        if m in seen:
             continue
+        path = os.path.join(LEAN, *m.split(".")) + ".lean"
+        if not os.path.exists(path):
+            continue
+        seen.add(m)
+        for line in open(path, encoding="utf-8"):
+            mm = re.match(r"\s*import\s+([A-Za-z0-9_.]+)", line)
+            if mm and (mm.group(1).startswith("Cog.") or mm.group(1) == "Main"):
+                todo.append(mm.group(1))
+    return [os.path.join(LEAN, *m.split(".")) + ".lean" for m in sorted(seen)]
+
+
+def forbidden_scan(modules=None):
+    hits = []
+    files = import_closure(modules) if modules else [
+        f for f in glob.glob(os.path.join(LEAN, "**", "*.lean"), recursive=True) if "/.lake/" not in f]
+    for f in files:
         in_block = 0
         for i, line in enumerate(open(f, encoding="utf-8"), 1):
             # strip comments (block comments tracked coarsely, line comments exactly)
@@ -218,7 +236,7 @@ class Check:
         targets = tuple(targets) if targets else tuple(imports) + ("drv",)
         ok, out = lake_build(targets)
         self.oblige("lake build " + " ".join(targets), ok, out[-3000:] if not ok else "")
-        hits = forbidden_scan()
+        hits = forbidden_scan(list(imports) + ["Main"])
         self.oblige("no sorry/admit/axiom/native_decide/bv_decide/implemented_by/unsafe in lean sources", not hits, hits[:10])
         if not ok:
             for t in theorems:
